@@ -742,6 +742,11 @@ def check(tier, seed):
         f'probe: {gen_flags}; with false C07_refusals holds only for local-as <= 65535 (C07_collision_refuted)',
     )
 
+    run.obligation(
+        'tree behaviour: an unknown optional parameter is answered 2/4 Unsupported Optional Parameter '
+        '(Gen_Registry.UNKNOWN_PARAM_SUBCODE = 4, RFC 4271 6.2)',
+        gen_flags.get('UNKNOWN_PARAM_SUBCODE') == 4, f'probe: {gen_flags}')
+
     rng = random.Random(seed)
     nconf = 120 if tier == "quick" else 1500
     per = 16 if tier == "quick" else 32
@@ -786,6 +791,21 @@ def check(tier, seed):
         ci, cfg, peer, out, _ = cases[k]
         run.fail_case('crash:' + out[1].split(':')[0], 'exception other than Notify while handling a peer OPEN',
                       describe(confs[ci], cfg, peer, out))
+
+    # RFC 4271 6.2: an optional parameter that is not recognised MUST be answered with subcode 4
+    unk = [k for k, c in enumerate(cases) if any(str(x).startswith('unknown-param') for x in c[2]['note']) and c[2]['body'][0] == 4]
+    unk_bad = [k for k in unk if cases[k][3][:3] != ['D', 2, 4]]
+    run.obligation(f'property oracle: an OPEN with an unknown optional parameter type is refused with 2/4 ({len(unk)} cases)',
+                   not unk_bad, f'{len(unk_bad)} failing inputs, first outcome: {cases[unk_bad[0]][3] if unk_bad else ""}')
+    if unk_bad:
+        ci, cfg, peer, out, _ = cases[unk_bad[0]]
+        small = dict(peer, body=list(bytes([4, 0xFD, 0xE9, 0, 90, 1, 2, 3, 4, 4, 3, 2, 0, 0])), note=['unknown-param', 'shrunk'])
+        _, sout = run_impl(loaded[ci][0], confs[ci]['restarted'], small['body'], [])
+        if sout[:3] == ['D', 2, 4] or sout[0] != 'D':
+            small, sout = peer, out
+        run.fail_case('unknown-optional-parameter-not-2/4',
+                      'an unknown OPEN optional parameter is not answered with 2/4 (Unsupported Optional Parameter)',
+                      describe(confs[ci], cfg, small, sout))
 
     # ---- model correspondence
     t_eval = time.time()
